@@ -331,7 +331,7 @@ func TestC15StateMachine(t *testing.T) {
 	deadline := ev.Deadline(8 * time.Minute)
 	for _, sc := range scs {
 		x := &sched.Explorer{Bound: bound, Report: rep, Deadline: deadline, Scenario: sc.name, AuditN: 200, Run: func(c *sched.Chooser) sched.Result { return runC15(t, sc, c) }}
-		if !x.Explore() {
+		if !x.ExploreOrReplay() {
 			rep.NotExhaustive("deadline or violation cap in " + sc.name)
 			break
 		}
